@@ -122,7 +122,21 @@ def build_base(p):
     if kind == "square":
         return T.square_lattice(p["nx"], p["ny"])
     if kind == "brick":
-        return T.brick_lattice(p["nx"], p["ny"])
+        t = T.brick_lattice(p["nx"], p["ny"])
+        if p.get("jitter_seed") is not None:
+            # perturbed brick wall in which the junctions of ONE horizontal line keep exactly their common y (their
+            # through-lines stay exactly straight: opening exactly pi), every other junction moves in x and y
+            from dataclasses import replace as _rep
+            rng = T.PRNG(p["jitter_seed"])
+            ys = sorted({round(z.imag, 9) for z in t.J.values()})
+            inner = ys[1:-1] or ys
+            keep_y = inner[int(rng.integers(0, len(inner)))]
+            J = {}
+            for j, z in t.J.items():
+                dx, dy = (float(v) for v in rng.uniform(-0.08, 0.08, size=2))
+                J[j] = complex(z.real + dx, z.imag if round(z.imag, 9) == keep_y else z.imag + dy)
+            t = _rep(t, J=J)
+        return t
     if kind == "wheel":
         # a hub cell surrounded by N ring cells (N = nx * ny): one cell with N internal interfaces; internal
         # interfaces are bent into arcs with drawn subtended angles
